@@ -16,7 +16,7 @@ from ovf import env
 env.setup_path()
 
 from ovf.gen import defs  # noqa: E402
-from ovf.mon import immut, items, ledger, purity, status  # noqa: E402,F401
+from ovf.mon import immut, items, ledger, purity, rerun, status  # noqa: E402,F401
 from ovf.sim import explore, provider  # noqa: E402
 from ovf.sim.provider import h64  # noqa: E402
 
@@ -28,7 +28,7 @@ GENS = {"dag": defs.gen_dag, "loop": defs.gen_loop}
 def monitors(flags=None):
     flags = flags or {}
     ms = [ledger.Ledger(check_ctx=flags.get("ctx", True)), status.StatusMonitor(), immut.AppendOnly(),
-          purity.KeyScan(), items.ItemsMonitor(), items.ArrivalAtRunningItems()]
+          purity.KeyScan(), items.ItemsMonitor(), items.ArrivalAtRunningItems(), rerun.RerunMon()]
     if flags.get("double_poll", True):
         ms.append(purity.DoublePoll())
     return ms
@@ -107,11 +107,18 @@ def conduct(job):
             lazy = job.get("lazy", [0, 40])[sched % len(job.get("lazy", [0, 40]))]
             ms = monitors(job.get("flags"))
             case = dict(wf=wf, inputs=inputs, oseed=h64(job.get("gseed", 0), seed, "o") % 100000,
-                        p_fail=job.get("p_fail", 0.2))
+                        p_fail=job.get("p_fail", 0.2), exotic=job.get("exotic", 0.0))
             run = explore.make_run(case, ms, model=m, ack_chain=bool(job.get("ack_chain")) and sched % 2 == 1)
             hook = Injector(h64(job.get("gseed", 0), seed, sched, "inj"), job.get("ctl")) if job.get("ctl") else None
             pol = explore.Policy(pseed=h64(job.get("gseed", 0), seed, sched, "p"), lazy_pct=lazy)
             explore.run_free(run, pol, hook=hook)
+            if (job.get("ctl") or {}).get("rerun") and run.status() == "failed" and not run.inflight \
+                    and h64(seed, sched, "rr") % 100 < 100 * job["ctl"]["rerun"]:
+                # default rerun of a failed workflow; every action succeeds from here on
+                ev = run.rerun(None)
+                if ev["exc"] is None:
+                    run.outcomes.force = lambda a: ("succeeded", None)
+                    explore.run_free(run, pol, hook=hook, start=False)
             run.finish()
             out["evaluations"] += 1
             collect(out, job, run, m, (seed, sched), nontriv_fn)
@@ -182,7 +189,7 @@ def collect(out, job, run, m, ident, nontriv_fn=None, extra=None):
 
 
 def export_case(run, m):
-    return dict(wf=run.wf, inputs=run.inputs, oseed=run.outcomes.seed, p_fail=run.outcomes.p_fail,
+    return dict(wf=run.wf, inputs=run.inputs, oseed=run.outcomes.seed, p_fail=run.outcomes.p_fail, exotic=run.outcomes.exotic,
                 overrides=run.outcomes.overrides, script=run.script, model=(m.to_json() if m is not None else None),
                 ack_chain=run.ack_chain)
 
